@@ -1,9 +1,179 @@
-//! C12 — not implemented yet.
-use crate::util::{Args, Out};
-use serde_json::{Value, json};
+//! C12 — long-running programs do not accumulate closures or heap objects, and no
+//! closure / heap object is used after release: counter equality at quiescent points
+//! (after sample W+N vs W+2N) + handle-validity hooks.
 
-pub fn meta(_args: &Args) -> Value {
-    json!({"level": "exploration", "rule": "not implemented", "floor": {"quick": 1000000, "thorough": 1000000}})
+use super::c01::{corpus_files, mutate_source};
+use super::progcase::{Case, gen_case, input_fn, report};
+use super::{drive, replay_one};
+use crate::run::{Backend, Session};
+use crate::util::{Args, Out};
+use mimium_lang::verif::{self, MiscEvent};
+use serde_json::{Value, json};
+use std::path::PathBuf;
+
+pub struct Checked {
+    pub violations: Vec<(String, String)>,
+    pub ran: bool,
+    pub max_closures: usize,
+    pub max_heap: usize,
+    pub samples: u64,
+    pub wasm_heap_growth: i64,
 }
-pub fn run(_args: &Args, _out: &mut Out) {}
-pub fn replay(_args: &Args, _out: &mut Out, _case: &Value) {}
+
+fn window(c: &Case) -> (usize, usize) {
+    // (warm-up, window); `n` of the case is the window
+    (c.n.max(16), c.n.max(16))
+}
+
+pub fn check(c: &Case) -> Checked {
+    let mut res = Checked { violations: vec![], ran: false, max_closures: 0, max_heap: 0, samples: 0, wasm_heap_growth: 0 };
+    let inp = input_fn(c.input_seed, c.finite_inputs);
+    let path = c.path.as_ref().map(PathBuf::from);
+    let (w, n) = window(c);
+    for b in [Backend::Vm, Backend::Wasm] {
+        let _ = verif::take_misc_events();
+        let Ok(mut s) = Session::build(b, &c.src, c.scheduler, path.clone()) else { continue };
+        let ich = s.io.input as usize;
+        let mut inbuf = vec![0.0; ich];
+        let mut marks: Vec<(usize, (usize, usize, usize))> = vec![];
+        let mut failed = false;
+        for t in 0..(w + 2 * n) {
+            for (k, v) in inbuf.iter_mut().enumerate() {
+                *v = inp(t, k);
+            }
+            if s.step(&inbuf).is_err() {
+                failed = true; // crashes are C03's business
+                break;
+            }
+            res.samples += 1;
+            if t + 1 == w || t + 1 == w + n || t + 1 == w + 2 * n {
+                marks.push((t + 1, s.live_counts()));
+            }
+        }
+        if failed || marks.len() < 3 {
+            continue;
+        }
+        res.ran = true;
+        let (c1, c2) = (marks[1].1, marks[2].1);
+        if b == Backend::Vm {
+            res.max_closures = res.max_closures.max(c2.0);
+            res.max_heap = res.max_heap.max(c2.1);
+            if c1.0 != c2.0 {
+                res.violations.push((
+                    "live-closures-grow/vm".into(),
+                    format!("closures after sample {}: {}, after sample {}: {} (after warm-up {}: {})", marks[1].0, c1.0, marks[2].0, c2.0, marks[0].0, marks[0].1.0),
+                ));
+            }
+            if c1.1 != c2.1 {
+                res.violations.push((
+                    "live-heap-objects-grow/vm".into(),
+                    format!("heap objects after sample {}: {}, after sample {}: {} (after warm-up {}: {})", marks[1].0, c1.1, marks[2].0, c2.1, marks[0].0, marks[0].1.1),
+                ));
+            }
+            // handle-validity hooks
+            for ev in verif::take_misc_events() {
+                match ev {
+                    MiscEvent::DeadHandle { op, raw } => {
+                        // null / zero-initialised handles are legitimate (zero-initialised state)
+                        // transmuted slot-map key: version in the low half, index in the high half
+                        let version = raw & 0xffff_ffff;
+                        let index = raw >> 32;
+                        if raw == 0 || version == 0 || (index == 0xffff_ffff && version == 1) {
+                            continue;
+                        }
+                        res.violations.push((format!("released-handle-used/{op}/vm"), format!("{op} on a handle that is not live: raw={raw:#x}")));
+                    }
+                    MiscEvent::Violation(m) if m.starts_with("closure-key") => {
+                        res.violations.push(("released-closure-used/vm".into(), m));
+                    }
+                    _ => {}
+                }
+            }
+        } else {
+            // the WASM heap is observed for the record (the property's anchors are the VM's tables)
+            res.wasm_heap_growth = c2.1 as i64 - c1.1 as i64;
+            let _ = verif::take_misc_events();
+        }
+    }
+    res.violations.dedup_by(|a, b| a.0 == b.0);
+    res
+}
+
+fn exec(c: &Case, idx: usize, out: &mut Out) -> bool {
+    let r = check(c);
+    out.count("samples_run", r.samples);
+    out.count("programs_with_live_closures_at_steady_state", (r.max_closures > 0) as u64);
+    out.count("programs_with_live_heap_objects_at_steady_state", (r.max_heap > 0) as u64);
+    if r.wasm_heap_growth != 0 {
+        out.count("wasm_heap_grew_not_judged", 1);
+    }
+    let origin = c.origin.as_deref().unwrap_or("generated");
+    out.count(&format!("origin:{}", origin.split(':').next().unwrap_or("")), 1);
+    for f in c.prog.iter().flat_map(|p| p.features.iter()).filter(|f| f.contains("lambda") || f.contains("closure") || f.contains("fn_")) {
+        out.count(&format!("feature:{f}"), 1);
+    }
+    report(out, idx, c, &r.violations, &|t| check(t).violations);
+    r.ran
+}
+
+pub fn meta(args: &Args) -> Value {
+    json!({
+        "level": "exploration",
+        "rule": "programs that allocate in dsp: generated core programs (lambdas, closures capturing and assigning locals, closures passed / returned / immediately invoked, escaping closures), every shipped source with a dsp (boxed recursive variants, closures in tuples and records, scheduler fixtures with self-rescheduling tasks) and operator/constant mutations of them. Each runs W + 2N samples (N = 64..256 quick, up to 4096 thorough; W = N); Machine.closures.len() and Machine.heap.len() after sample W+N and W+2N must be equal; every heap retain/release/load/store on a handle that is not live (slot-map version says it once was) and every closure dereference through an invalid key is a violation. Non-trivial = the VM ran all W+2N samples; distinct = hash of text + parameters.",
+        "assumptions": ["steady state is reached within W = N samples", "zero / null handles are legitimate zero-initialised state and ignored", "the WASM heap is recorded, not judged (usersum release is a documented no-op there)"],
+        "floor": {"quick": 80, "thorough": 2000},
+        "case_timeout_s": 60,
+        "hang_is_violation": false,
+        "crash_is_violation": false,
+        "budget": args.cases(400, 10000),
+    })
+}
+
+pub fn run(args: &Args, out: &mut Out) {
+    let files = corpus_files(&args.repo);
+    let ncorpus = files.len();
+    let nmut = if args.thorough() { ncorpus * 4 } else { ncorpus / 2 };
+    let ngen = args.cases(400, 10000);
+    drive(
+        args,
+        out,
+        ncorpus + nmut + ngen,
+        |idx, rng| {
+            if idx < ncorpus + nmut {
+                let f = if idx < ncorpus { &files[idx] } else { &files[rng.below(ncorpus.max(1))] };
+                let src = std::fs::read_to_string(f).ok()?;
+                for bad in ["Sampler", "sampler", "midi", "loadwav", "gen_sampler", "Slider", "Probe"] {
+                    if src.contains(bad) {
+                        return None;
+                    }
+                }
+                let name = f.file_name()?.to_string_lossy().to_string();
+                if args.q(&format!("corpus:{name}")) {
+                    return None;
+                }
+                let mutate = idx >= ncorpus;
+                Some(Case {
+                    src: if mutate { mutate_source(&src, rng) } else { src },
+                    n: if args.thorough() { *rng.pick(&[256usize, 1024, 4096]) } else { *rng.pick(&[64usize, 256]) },
+                    input_seed: rng.next(),
+                    finite_inputs: true,
+                    prog: None,
+                    expect: None,
+                    scheduler: true,
+                    path: Some(f.to_string_lossy().to_string()),
+                    origin: Some(format!("{}:{name}", if mutate { "mutant" } else { "corpus" })),
+                    split: None,
+                })
+            } else {
+                let mut c = gen_case(args, rng, true);
+                c.n = if args.thorough() { *rng.pick(&[64usize, 256, 1024]) } else { *rng.pick(&[32usize, 64]) };
+                Some(c)
+            }
+        },
+        exec,
+    );
+}
+
+pub fn replay(_args: &Args, out: &mut Out, case: &Value) {
+    replay_one::<Case>(out, case, exec);
+}
